@@ -1,6 +1,7 @@
 // Shared pieces of the libFuzzer targets: forward byte reader (structure-aware decode of the fuzz input), counters that
 // are flushed to $VF_STATS at exit and before a trap, failure reporting.
 #pragma once
+#define VF_LIBFUZZER_TARGET 1
 
 #include <sys/stat.h>
 
